@@ -752,6 +752,7 @@ func init() {
 			Cfg     parseCfg `json:"cfg"`
 			Compile bool     `json:"compile"`
 			Out     bool     `json:"out"`
+			NoTree  bool     `json:"notree"` // huge instances: the tree and token list are not reported (Out is the fingerprint)
 		}
 		if err := json.Unmarshal(raw, &c); err != nil {
 			return nil, err
@@ -760,6 +761,9 @@ func init() {
 		if c.Out && len(obs.Errors) == 0 && !obs.Err {
 			code, _, perr := safeCompile("compact", obs.prog)
 			obs.Out = code + perr
+		}
+		if c.NoTree {
+			obs.Tree, obs.Toks, obs.PLog, obs.TLog = nil, nil, nil, nil
 		}
 		if c.Compile && len(obs.Errors) == 0 && !obs.Err {
 			obs.Compile = map[string]string{}
